@@ -180,14 +180,32 @@ impl Sub<f64> for ClockTime {
 			return self.add(-ticks);
 		}
 
-		let fraction = ((self.fraction - ticks).fract() + 1.0) % 1.0;
-		let ticks = self
-			.ticks
-			.saturating_sub((ticks - self.fraction).ceil() as u64);
+		let mut whole_ticks = ticks.trunc() as u64;
+		let mut fraction = self.fraction - ticks.fract();
+		if fraction < 0.0 {
+			fraction += 1.0;
+			if fraction < 1.0 {
+				// borrow a tick
+				whole_ticks = whole_ticks.saturating_add(1);
+			} else {
+				// the fraction was so slightly negative that it rounds
+				// up to the whole tick
+				fraction = 0.0;
+			}
+		}
+
+		// saturate at zero instead of wrapping the fraction around
+		if whole_ticks > self.ticks {
+			return Self {
+				clock: self.clock,
+				ticks: 0,
+				fraction: 0.0,
+			};
+		}
 
 		Self {
 			clock: self.clock,
-			ticks,
+			ticks: self.ticks - whole_ticks,
 			fraction,
 		}
 	}
